@@ -6,7 +6,7 @@ accelerometer readings vs the exact body rate / specific force (rate type) or
 their exact interval integrals (increment type) on interior samples, the returned
 trajectory vs the truth, and the strapdown re-integration of the synthesised
 readings vs the returned trajectory - each through the halving ladder
-(err(h) <= 4 |r(h) - r(h/2)| + floor, and shrinking while above the floor); a body
+(err(h) <= 6 |r(h) - r(h/2)| + floor, and err(h/2) <= 0.9 err(h) while above the floor); a body
 at rest vs the closed form C^T w_ie, -C^T g_n; generate_sine_velocity_motion vs
 its documented closed form and an own integration of it on the ellipsoid.
 """
@@ -84,10 +84,10 @@ def ladder(out, obs, what, e_h, e_h2, d, floor, ctx, counter):
     if e_h > 100 * floor:
         obs['readings_above_floor'] = obs.get('readings_above_floor', 0) + 1
         obs['max_err_over_diff_x100'] = max(obs.get('max_err_over_diff_x100', 0), int(100 * e_h / max(d, 1e-300)))
-    if e_h > 4 * d + floor:
+    if e_h > 6 * d + floor:
         out.append(vio('non_vanishing_error', f'{what}: error {e_h:.3e} at h but halving the sampling interval changes the result only by '
                        f'{d:.3e} (floor {floor:.1e}); {ctx}'))
-    elif e_h > 100 * floor and e_h2 > 0.75 * e_h:
+    elif e_h > 100 * floor and e_h2 > 0.9 * e_h:
         out.append(vio('not_shrinking', f'{what}: error {e_h:.3e} at h, {e_h2:.3e} at h/2; {ctx}'))
 
 
@@ -140,7 +140,7 @@ def run_motion(case, out, obs):
                 lo = 1 if st == 'increment' else 0
                 ee1 = max(e1[lo:SKIP, cols].max(), e1[-SKIP:, cols].max())
                 ee2 = max(e2[lo:2 * SKIP, cols].max(), e2[-2 * SKIP:, cols].max())
-                if ee1 > 100 * fl and ee2 > 0.8 * ee1:
+                if ee1 > 100 * fl and ee2 > 0.9 * ee1:
                     out.append(vio('ends_not_shrinking', f'{name} readings near the ends: {ee1:.3e} at h, {ee2:.3e} at h/2; {ctx}'))
             # returned trajectory vs truth
             p1, v1 = pos_vel_err(rt, tr)
